@@ -2332,6 +2332,10 @@ func (c *Client) doRecord() (*base.Response, error) {
 		return nil, err
 	}
 
+	if c.setuppedTransport == nil {
+		return nil, fmt.Errorf("no medias have been setupped")
+	}
+
 	c.state = clientStateRecord
 	c.startTransportRoutines()
 	c.createWriter()
